@@ -168,6 +168,7 @@ type Sim struct {
 	nfaults  int
 	HashSalt uint64
 	tick     int64
+	noYieldAfterUnlock bool
 }
 
 // S is the active simulation, nil outside a run (pass-through mode).
@@ -678,6 +679,11 @@ func Unlock(site int, mu tryLocker) {
 	mu.Unlock()
 	if S != nil {
 		S.unlockGen++
+		// A release is a synchronisation operation too: somebody waiting for the
+		// lock (or anybody else) may run before the releasing goroutine continues.
+		if t := S.running; t != nil && !S.noYieldAfterUnlock {
+			t.park(site, tsParked)
+		}
 	}
 }
 
@@ -702,6 +708,9 @@ func RUnlock(site int, mu *sync.RWMutex) {
 	mu.RUnlock()
 	if S != nil {
 		S.unlockGen++
+		if t := S.running; t != nil && !S.noYieldAfterUnlock {
+			t.park(site, tsParked)
+		}
 	}
 }
 
